@@ -107,6 +107,24 @@ func genOp(r *rand.Rand, m *model.Client, w opWeights, salt int) adapt.Op {
 						}
 					}
 				}
+				if r.Intn(4) == 0 {
+					// several index changes in one request; the last one may fail (then none must be applied)
+					chg := []adapt.IndexChange{}
+					for _, ix := range t.Spec.Indexes {
+						if !ix.Local && r.Intn(2) == 0 {
+							chg = append(chg, adapt.IndexChange{Delete: ix.Name})
+						}
+					}
+					if !have["gsi3"] && r.Intn(2) == 0 {
+						chg = append(chg, adapt.IndexChange{Create: &adapt.IndexSpec{Name: "gsi3", Hash: "s"}})
+					}
+					if r.Intn(2) == 0 {
+						chg = append(chg, adapt.IndexChange{Delete: "nosuch"})
+					}
+					if len(chg) > 0 {
+						return adapt.Op{Kind: adapt.OpUpdateTable, Table: name, Chg: chg}
+					}
+				}
 				del := mon.Pick(r, []string{"gsi1", "gsi2", "gsi3", "nosuch"})
 				if del == "lsi1" {
 					del = "nosuch"
